@@ -50,15 +50,29 @@ def run(R):
                   "MULW128 plus instances of commutativity and of the sign identity sx(a)*n == +-(|a|*n); `unsat` there "
                   "implies `unsat` for real multiplication.  Anything else is re-decided with real bvmul (precise pass).")
 
-    def layered(name, inputs, mk, note=""):
-        def build(abstract):
-            o = E.Opts(mul_uf=True) if abstract else E.Opts(wide_mul=True)
-            calls, assume, goal, lem = mk(o, abstract)
+    def layered(name, inputs, mk, note="", mk_int=None):
+        """MULW abstraction -> INT encoding (exact; quick at finding counterexamples) -> precise BV"""
+        def build(ab):
+            o = E.Opts(mul_uf=True) if ab else E.Opts(wide_mul=True)
+            calls, assume, goal, lem = mk(o, ab)
             return Ob(name, "verify", inputs, calls, assume, goal, note=note, portfolio=PF,
-                      extra_asserts=lem if abstract else [], abstract=abstract)
+                      extra_asserts=lem if ab else [], abstract=ab)
+
+        def build_int():
+            ins, calls, assume, goal = mk_int(E.Opts(int_mode=True))
+            ob2 = Ob(name, "verify", ins, calls, assume, goal, note=note + " [INT encoding]", portfolio=("z3", "cvc5"),
+                     timeout=60)
+            ob2.tag = "int"
+            ob2.fallback = lambda: build(False)
+            return ob2
         ob = build(True)
-        ob.fallback = lambda: build(False)
+        ob.fallback = build_int if mk_int is not None else (lambda: build(False))
         R._add(ob)
+
+    ai, bi = z3.Int("a"), z3.Int("b")
+    fin_i = lambda v: z3.And(v >= -M, v <= M)
+    nan_i = lambda v: z3.Or(v == NAN, v == -NAN)
+    Di = z3.And(fin_i(ai), fin_i(bi))
 
     for u in ("mul", "muleq", "fmul"):
         def mk1(o, ab, u=u):
@@ -77,11 +91,23 @@ def run(R):
             P = product(sx(a, W), sx(b, W), ab)
             return [c], z3.And(D, z3.Or(P > val(M << 16, W), P < val(-(M << 16), W))), isnan_raw(c.out), []
 
+        def mi1(o, u=u):
+            c = R.call(h, u, [ai, bi], opts=o)
+            err = c.out * 65536 - ai * bi
+            return [ai, bi], [c], Di, z3.Or(nan_i(c.out), z3.And(err <= 65536, err >= -65536))
+
+        def mi2(o, u=u):
+            c = R.call(h, u, [ai, bi], opts=o)
+            return [ai, bi], [c], z3.And(Di, ai * bi < (1 << 63), ai * bi > -(1 << 63)), z3.Not(nan_i(c.out))
+
+        def mi3(o, u=u):
+            c = R.call(h, u, [ai, bi], opts=o)
+            return [ai, bi], [c], z3.And(Di, z3.Or(ai * bi > (M << 16), ai * bi < -(M << 16))), nan_i(c.out)
         layered("%s/within-1ulp-or-nan" % u, [a, b], mk1,
-                "a*b is NaN or |r*2^16 - a*b| <= 2^16 (one unit in the last place, either direction)")
+                "a*b is NaN or |r*2^16 - a*b| <= 2^16 (one unit in the last place, either direction)", mk_int=mi1)
         layered("%s/not-nan-when-product-fits" % u, [a, b], mk2,
-                "raw product fits int64 (|a*b| < 2^31) => result is not NaN")
-        layered("%s/nan-when-out-of-range" % u, [a, b], mk3, "exact product outside [lowest,max] => NaN")
+                "raw product fits int64 (|a*b| < 2^31) => result is not NaN", mk_int=mi2)
+        layered("%s/nan-when-out-of-range" % u, [a, b], mk3, "exact product outside [lowest,max] => NaN", mk_int=mi3)
         c = R.call(h, u, [a, b])
         R.verify_noub("%s/no-UB" % u, [a, b], [c], D, portfolio=PF)
         R.witness("%s/reach-finite" % u, [a, b], [c], D, z3.And(z3.Not(isnan_raw(c.out)), c.out != 0))
@@ -96,8 +122,16 @@ def run(R):
                 inr = z3.And(P <= val(M, W), P >= val(-M, W))
                 return [c], finite(a), z3.If(inr, sx(c.out, W) == P, isnan_raw(c.out)), [sign_lemma(a, N)]
 
+            def mi(o, u=u, k=k):
+                w = B.WIDTH[k]
+                ni = z3.Int("n")
+                c = R.call(h, u + k, [ai, ni], opts=o)
+                nmath = ni if k in B.SIGNED else ni % (1 << w)
+                P = ai * nmath
+                dom = z3.And(fin_i(ai), ni >= -(1 << (w - 1)), ni < (1 << (w - 1)))
+                return [ai, ni], [c], dom, z3.If(z3.And(P <= M, P >= -M), c.out == P, nan_i(c.out))
             layered("%s%s/exact-or-nan" % (u, k), [a, n], mk,
-                    "fixed*integer: exact product in range, NaN otherwise (n = mathematical value of the operand)")
+                    "fixed*integer: exact product in range, NaN otherwise (n = mathematical value of the operand)", mk_int=mi)
             c = R.call(h, u + k, [a, n])
             R.verify_noub("%s%s/no-UB" % (u, k), [a, n], [c], finite(a), portfolio=PF)
         c = R.call(h, "mulr_" + k, [a, n])
